@@ -16,20 +16,23 @@ type ForInfo struct {
 	LabelUsedInside, LabelUsedOutside, BodyStartsWithFor, NoCounter bool
 	EquBetweenBlocks, LabelledBodyStartsWithBareFor, ChainedEqu     bool
 	EquInsideBlock, LabelledBodyStartsWithSilentFor, EmptyBody      bool
+	LabelInsideBody, EquTwoLevelsDeep                               bool
 }
 
 type forGen struct {
-	t        *rapid.T
-	cfg      AsmConfig
-	equs     []string // EQUs defined textually before the item being generated (usable in FOR counts)
-	allEqus  []string // every EQU of the program (usable in operands, forward references included)
-	equVal   map[string]int64
-	equItems []rc.Item // all EQU definitions (for evaluating count templates textually)
-	nCounter int
-	nBlock   int
-	topLabs  []string // instruction labels outside blocks
-	blkLabs  []string // block labels (all, known up front)
-	info     ForInfo
+	t          *rapid.T
+	cfg        AsmConfig
+	equs       []string // EQUs defined textually before the item being generated (usable in FOR counts)
+	allEqus    []string // every EQU of the program (usable in operands, forward references included)
+	equVal     map[string]int64
+	equItems   []rc.Item // all EQU definitions (for evaluating count templates textually)
+	nCounter   int
+	nBlock     int
+	nBodyLab   int
+	nestedEqus []rc.Item // EQU definitions still to be placed inside a body that is written out once
+	topLabs    []string  // instruction labels outside blocks
+	blkLabs    []string  // block labels (all, known up front)
+	info       ForInfo
 }
 
 func (g *forGen) operand(counters []string) []rc.Tok {
@@ -198,7 +201,31 @@ func (g *forGen) block(depth int, counters []string, budget int, mayLabel bool, 
 			used += n * int(v)
 			it.Body = append(it.Body, inner)
 		} else {
-			it.Body = append(it.Body, g.instr(counters, nil))
+			var ilabs []string
+			if mayLabel && v == 1 && rapid.IntRange(0, 3).Draw(t, "bodylab") == 0 {
+				// an instruction inside a body that is written out once may carry a label
+				name := fmt.Sprintf("T%d", 100+g.nBodyLab)
+				g.nBodyLab++
+				ilabs = []string{name}
+				g.topLabs = append(g.topLabs, name) // later operands may refer to it
+				g.info.LabelInsideBody = true
+			}
+			it.Body = append(it.Body, g.instr(counters, ilabs))
+		}
+	}
+	if mayLabel && v == 1 && len(g.nestedEqus) > 0 && rapid.IntRange(0, 2).Draw(t, "nestedequ") == 0 {
+		// an EQU definition inside a body that is written out once, at any depth; first or last in the body
+		e := g.nestedEqus[0]
+		g.nestedEqus = g.nestedEqus[1:]
+		g.equs = append(g.equs, e.Labels[0])
+		g.info.EquInsideBlock = true
+		if depth >= 2 {
+			g.info.EquTwoLevelsDeep = true
+		}
+		if rapid.Bool().Draw(t, "nestedequfirst") {
+			it.Body = append([]rc.Item{e}, it.Body...)
+		} else {
+			it.Body = append(it.Body, e)
 		}
 	}
 	if needInstr {
@@ -326,6 +353,12 @@ func ForProgram(t *rapid.T, cfg AsmConfig) (rc.Program, ForInfo) {
 	for i := 0; i < nTop; i++ {
 		for k, e := range equItems {
 			if equPos[k] == i {
+				if k == len(equItems)-1 && rapid.IntRange(0, 2).Draw(t, "equnested") == 0 {
+					// the last definition (nothing else depends on it) goes into the body of a
+					// block that is written out once, at whatever depth one turns up
+					g.nestedEqus = append(g.nestedEqus, e)
+					continue
+				}
 				if rapid.IntRange(0, 4).Draw(t, "equinblock") == 0 {
 					// the definition stands inside a block that is emitted once; what follows may use it
 					g.info.EquInsideBlock = true
@@ -376,6 +409,9 @@ func ForProgram(t *rapid.T, cfg AsmConfig) (rc.Program, ForInfo) {
 			items = append(items, g.instr(nil, labs))
 		}
 	}
+	// a definition that found no block is placed at the end (operands may use an EQU before its definition)
+	items = append(items, g.nestedEqus...)
+	g.nestedEqus = nil
 	// block labels that were never attached must not be referenced: rewrite such references to literals
 	attached := map[string]bool{}
 	var walk func(items []rc.Item)
